@@ -1,4 +1,5 @@
 """Direct observation of the real code (used by falsifiers only; never consults the Lean model)."""
+import os
 import copy
 import dataclasses
 import datetime
@@ -79,10 +80,12 @@ def collect_classes(ns):
 
 
 def local_ns(chain, cls):
-    ns = {}
-    for c in chain + [cls]:
-        ns.update({k: v for k, v in vars(c).items() if isclass(v)})
-        ns[c.__name__] = c
+    """names a class's string annotations can use beyond the module's globals: the classes defined in its own body (Python
+    does not nest class scopes — an enclosing class's other members are NOT visible; the generator refers to those by an
+    absolute dotted path). A top-level class also sees its own name (it is a module global)."""
+    ns = {k: v for k, v in vars(cls).items() if isclass(v)}
+    if not chain:
+        ns[cls.__name__] = cls
     return ns
 
 
